@@ -3,10 +3,13 @@ CONSTANTS
   Colls = {"P", "R"}
   Actors = {w1, w2, rep}
   Writers = {w1, w2}
+  Snap = "none"
+  Rst = "none"
   Rep = rep
   Offsets = {0, 1, 2}
   BlockSize = 2
   Known = @KNOWN@
+  History = FALSE
   Guard = @GUARD@
   Schema <- SchemaKey
   IdxDefs <- IdxNone
